@@ -52,6 +52,17 @@ class AsyncMode(Mode, metaclass=abc.ABCMeta):
         # stop mode
         self.stop()
 
+    def stop(self, callback=None, **kwargs) -> bool:
+        """Stop mode and cancel its task right away.
+
+        Otherwise the task would continue to run (and to post events) until the stopping queue is done.
+        """
+        if self._active and not self.stopping and self._task:
+            self._task.cancel()
+            self._task = None
+
+        return super().stop(callback, **kwargs)
+
     def _stopped(self) -> None:
         """Cancel task."""
         super()._stopped()
